@@ -5,7 +5,7 @@
 From Coq Require Import ZArith List Bool.
 From PTK Require Import Lib.Sx Lib.Py Model.Document Model.BufferEdit Proofs.BufferEditFacts
   Proofs.BufferEditLines Proofs.BufferEditIndent Model.C02_DocQueries Model.C01_CaseWord
-  Proofs.C01_CaseWordFacts Proofs.C01_LastLine.
+  Proofs.C01_CaseWordFacts Proofs.C01_LastLine Proofs.C01_Audit.
 Import ListNotations.
 Open Scope Z_scope.
 
@@ -31,6 +31,19 @@ Theorem C01_overwrite : forall b data,
               (bcur b + len data)) [].
 Proof. exact insert_overwrite_spec. Qed.
 Print Assumptions C01_overwrite.
+
+(* ... the same with or without moving the cursor. *)
+Theorem C01_overwrite_any_move : forall b data mv,
+  Inv b ->
+  exists k,
+    0 <= k <= len data /\ bcur b + k <= len (btext b) /\
+    mem_Z NL (firstn (Z.to_nat k) (skipn (Z.to_nat (bcur b)) (btext b))) = false /\
+    insert_text b data true mv =
+    Ok (mkbuf (firstn (Z.to_nat (bcur b)) (btext b) ++ data
+               ++ skipn (Z.to_nat (bcur b + k)) (btext b))
+              (if mv then bcur b + len data else bcur b)) [].
+Proof. exact insert_overwrite_spec_mv. Qed.
+Print Assumptions C01_overwrite_any_move.
 
 (* Deleting n characters before the cursor removes exactly the min(n, cursor)
    characters adjacent to the cursor and returns exactly those. *)
@@ -66,6 +79,31 @@ Theorem C01_delete : forall b n,
      (firstn (Z.to_nat k) (skipn (Z.to_nat (bcur b)) (btext b))).
 Proof. exact delete_spec. Qed.
 Print Assumptions C01_delete.
+
+(* ... for EVERY count: a count below zero deletes nothing (the repaired
+   Buffer.delete clamps it; delete_before_cursor rejects one by assertion). *)
+Theorem C01_delete_any_count : forall b n,
+  Inv b ->
+  let k := Z.min (Z.max 0 n) (len (btext b) - bcur b) in
+  delete b n =
+  Ok (mkbuf (firstn (Z.to_nat (bcur b)) (btext b) ++ skipn (Z.to_nat (bcur b + k)) (btext b))
+            (bcur b))
+     (firstn (Z.to_nat k) (skipn (Z.to_nat (bcur b)) (btext b))).
+Proof. exact delete_spec_any. Qed.
+Print Assumptions C01_delete_any_count.
+
+Theorem C01_delete_nonpositive : forall b n, Inv b -> n <= 0 -> delete b n = Ok b [].
+Proof. exact delete_negative. Qed.
+Print Assumptions C01_delete_nonpositive.
+
+(* Before the repair a negative count was a slice relative to the END of the
+   text: ('abcdef', cursor 1).delete(-1) removed 'bcde' (reachable from the
+   keyboard as Esc - C-d). *)
+Theorem C01_delete_pinned_refuted :
+  exists b n, Inv b /\ delete_pinned b n = Ok (mkbuf [97;102] 1) [98;99;100;101] /\
+              btext b = [97;98;99;100;101;102].
+Proof. exact delete_pinned_refuted. Qed.
+Print Assumptions C01_delete_pinned_refuted.
 
 (* Character swap alters only the two characters before the cursor. *)
 Theorem C01_swap : forall b x y,
@@ -105,16 +143,16 @@ Theorem C01_transform_current_line : forall F b pre line post,
 Proof. exact transform_current_line_spec. Qed.
 Print Assumptions C01_transform_current_line.
 
-(* newline inserts a line ending plus (optionally) a margin of blanks at the
-   cursor and nothing else. *)
+(* newline inserts a line ending plus (optionally) a margin of blanks - which
+   holds no line ending itself - at the cursor and nothing else. *)
 Theorem C01_newline : forall b cm,
   Inv b ->
   exists m,
     newline b cm =
     Ok (mkbuf (firstn (Z.to_nat (bcur b)) (btext b) ++ NL :: m ++ skipn (Z.to_nat (bcur b)) (btext b))
               (bcur b + 1 + len m)) [] /\
-    forallb is_space m = true /\ (cm = false -> m = []).
-Proof. exact newline_spec. Qed.
+    forallb is_space m = true /\ mem_Z NL m = false /\ (cm = false -> m = []).
+Proof. exact newline_spec'. Qed.
 Print Assumptions C01_newline.
 
 (* line-join replaces only the line ending after the current line and the
@@ -150,7 +188,7 @@ Theorem C01_insert_line_above : forall b cm pre line post,
   Inv b -> line_split b pre line post ->
   exists m,
     insert_line_above b cm = Ok (mkbuf (pre ++ m ++ NL :: line ++ post) (len pre + len m)) [] /\
-    forallb is_space m = true /\ (cm = false -> m = []).
+    forallb is_space m = true /\ mem_Z NL m = false /\ (cm = false -> m = []).
 Proof. exact insert_line_above_spec. Qed.
 Print Assumptions C01_insert_line_above.
 
@@ -159,7 +197,7 @@ Theorem C01_insert_line_below : forall b cm pre line post,
   exists m,
     insert_line_below b cm =
     Ok (mkbuf (pre ++ line ++ NL :: m ++ post) (len pre + len line + 1 + len m)) [] /\
-    forallb is_space m = true /\ (cm = false -> m = []).
+    forallb is_space m = true /\ mem_Z NL m = false /\ (cm = false -> m = []).
 Proof. exact insert_line_below_spec. Qed.
 Print Assumptions C01_insert_line_below.
 
@@ -189,6 +227,21 @@ Theorem C01_unindent_text : forall b a e c b' r,
 Proof. exact unindent_text. Qed.
 Print Assumptions C01_unindent_text.
 
+(* indent / unindent never fail, so the two statements above are about every
+   call: unconditionally, the text after the call is the row transform. *)
+Theorem C01_indent_total : forall b a e c,
+  (exists b' r, indent b a e c = Ok b' r) /\
+  btext (res_buf (indent b a e c)) = transform_lines (fun l => str_mul INDENT c ++ l) (btext b) a e.
+Proof. intros; split; [apply indent_ok|apply indent_total]. Qed.
+Print Assumptions C01_indent_total.
+
+Theorem C01_unindent_total : forall b a e c,
+  (exists b' r, unindent b a e c = Ok b' r) /\
+  btext (res_buf (unindent b a e c)) =
+  transform_lines (unindent_line (str_mul INDENT c)) (btext b) a e.
+Proof. intros; split; [apply unindent_ok|apply unindent_total]. Qed.
+Print Assumptions C01_unindent_total.
+
 (* Case transforms (uppercase-word, downcase-word, capitalize-word): one
    application replaces a span of n characters directly after the cursor by its
    image under the case map F and puts the cursor behind it; nothing else
@@ -214,6 +267,69 @@ Theorem C01_case_word_pinned_refuted :
     btext b = [97; 10; 98].
 Proof. exact case_word1_pinned_refuted. Qed.
 Print Assumptions C01_case_word_pinned_refuted.
+
+(* The command with its repeat count: the text before the cursor and a suffix
+   of the text after it are kept; the n characters in between are cut into
+   consecutive pieces and each piece is replaced by its F-image; the cursor
+   ends behind the replacement. *)
+Theorem C01_case_word_count : forall F b arg,
+  Inv b ->
+  exists n pieces b',
+    case_word F b arg = Ok b' [] /\
+    0 <= n <= len (btext b) - bcur b /\
+    concat pieces = firstn (Z.to_nat n) (skipn (Z.to_nat (bcur b)) (btext b)) /\
+    btext b' = firstn (Z.to_nat (bcur b)) (btext b) ++ concat (map F pieces)
+               ++ skipn (Z.to_nat (bcur b + n)) (btext b) /\
+    bcur b' = bcur b + len (concat (map F pieces)).
+Proof. exact case_word_spec. Qed.
+Print Assumptions C01_case_word_count.
+
+(* The readline commands that forward the numeric argument, reduced to the
+   buffer operations above (the handlers return None: drop_ret). *)
+Theorem C01_delete_char : forall b arg,
+  delete_char b arg = drop_ret (delete b arg) /\ (Inv b -> arg <= 0 -> delete_char b arg = Ok b []).
+Proof. intros; split; [apply delete_char_is_delete|apply delete_char_negative]. Qed.
+Print Assumptions C01_delete_char.
+
+Theorem C01_backward_delete_char : forall b arg,
+  (0 <= arg -> backward_delete_char b arg = drop_ret (delete_before_cursor b arg)) /\
+  (arg < 0 -> backward_delete_char b arg = drop_ret (delete b (- arg))).
+Proof. intros; split; [apply backward_delete_char_nonneg|apply backward_delete_char_neg]. Qed.
+Print Assumptions C01_backward_delete_char.
+
+Theorem C01_self_insert : forall b data arg,
+  Inv b ->
+  self_insert b data arg =
+  Ok (mkbuf (firstn (Z.to_nat (bcur b)) (btext b) ++ str_mul data arg ++ skipn (Z.to_nat (bcur b)) (btext b))
+            (bcur b + len (str_mul data arg))) [].
+Proof. exact self_insert_is_insert. Qed.
+Print Assumptions C01_self_insert.
+
+Theorem C01_transpose_chars_edges : forall b,
+  (bcur b = 0 -> transpose_chars b = Ok b []) /\
+  (bcur b <> 0 -> bcur b = len (btext b) -> transpose_chars b = swap_characters_before_cursor b).
+Proof. intros; split; [apply transpose_at_start|apply transpose_at_end]. Qed.
+Print Assumptions C01_transpose_chars_edges.
+
+(* "The text seen through every view of the buffer is the same": the views the
+   model has (text before/after the cursor, the lines) reassemble to the text,
+   in every state with the invariant - so after every operation and after
+   every finite sequence.  (The real Buffer's _working_lines entry and its
+   cached Document are compared by the harness oracle only.) *)
+Theorem C01_views : forall b,
+  Inv b ->
+  text_before_cursor (bdoc b) ++ text_after_cursor (bdoc b) = btext b /\
+  join [NL] (lines (bdoc b)) = btext b /\
+  len (text_before_cursor (bdoc b)) = bcur b.
+Proof. exact views_agree. Qed.
+Print Assumptions C01_views.
+
+Theorem C01_views_after_history : forall ops b,
+  Inv b -> let b' := steps b ops in
+  text_before_cursor (bdoc b') ++ text_after_cursor (bdoc b') = btext b' /\
+  join [NL] (lines (bdoc b')) = btext b'.
+Proof. exact views_after_history. Qed.
+Print Assumptions C01_views_after_history.
 
 (* The invariant for the extended operation set (BufferEdit's operations plus
    the case commands with any repeat count) and every finite sequence. *)
